@@ -1865,11 +1865,36 @@ pub fn c15(property: &str, seed: u64, index: u64) -> Plan {
         // (a tick that falls into a pause happens at the pause's end, and the schedule continues from there)
         nodes[lag].tick.pauses.push((first_missed - 1, first_missed + k.unsigned_abs() as u64 * per));
     }
-    let links = vec![
+    let mut links = vec![
         LinkSpec { from: 0, to: 1, base_us: ms(lat_ms), jitter_us: 0, loss_ppm: 0, dup_ppm: 0 },
         LinkSpec { from: 1, to: 0, base_us: ms(lat_ms), jitter_us: 0, loss_ppm: 0, dup_ppm: 0 },
     ];
-    let measure_from = start + ms(3000) + 8 * per;
+    let mut measure_from = start + ms(3000) + 8 * per;
+    // a fifth of the rollback cells have a third peer that dies early: the two survivors start
+    // level, cut the dead peer off, and only then does one of them fall behind by |k| frames.
+    // What the survivors estimate about each other must not be disturbed by the dead endpoint.
+    let third_dies = !lockstep && c.chance(&[13], 200_000);
+    if third_dies {
+        nodes[0].tick.start_us = start;
+        nodes[1].tick.start_us = start + phase;
+        nodes.push(mk(vec![2], start + c.range(&[14], 0, per - 1), base + c.range(&[15], 0, 2 * day), c.range(&[16], 1000, 2000)));
+        // the dying peer stops at one instant, over links of equal constant latency: both survivors
+        // hold the same amount of its input (the recorded C10 defect needs a difference)
+        let death = start + ms(c.range(&[17], 400, 900));
+        nodes[2].tick.stop_us = Some(death);
+        for x in 0..2 {
+            links.push(LinkSpec { from: x, to: 2, base_us: ms(lat_ms), jitter_us: 0, loss_ppm: 0, dup_ppm: 0 });
+            links.push(LinkSpec { from: 2, to: x, base_us: ms(lat_ms), jitter_us: 0, loss_ppm: 0, dup_ppm: 0 });
+        }
+        let cut_off_by = death + ms(lat_ms) + ms(2100);
+        if k != 0 {
+            let lag = if k > 0 { 1 } else { 0 };
+            let n_before = (cut_off_by + ms(400) - nodes[lag].tick.start_us) / per + 1;
+            let first_missed = nodes[lag].tick.start_us + n_before * per;
+            nodes[lag].tick.pauses.push((first_missed - 1, first_missed + k.unsigned_abs() as u64 * per));
+        }
+        measure_from = cut_off_by + ms(400) + k.unsigned_abs() as u64 * per + ms(3000) + 8 * per;
+    }
     // in a third of the runs quality reports / replies get lost during the warm-up (never during the
     // measurement): the estimates must still settle once reports flow again
     let mut windows = Vec::new();
@@ -1883,10 +1908,10 @@ pub fn c15(property: &str, seed: u64, index: u64) -> Plan {
     }
     Plan {
         property: property.to_owned(),
-        scenario: if lockstep { "c15-constant-lead-lockstep" } else { "c15-constant-lead" }.into(),
+        scenario: if lockstep { "c15-constant-lead-lockstep" } else if third_dies { "c15-constant-lead-after-a-third-peer-died" } else { "c15-constant-lead" }.into(),
         seed,
         cfg: RunCfg {
-            num_players: 2,
+            num_players: if third_dies { 3 } else { 2 },
             max_prediction: mp,
             input_delay: if lockstep { k.unsigned_abs() as usize + lat_frames as usize + 3 } else { *c.pick(&[6], &[0usize, 0, 2]) },
             sparse: false,
@@ -1916,6 +1941,6 @@ pub fn c15(property: &str, seed: u64, index: u64) -> Plan {
         mode: Mode::Net,
         random_faults_until_us: Some(0),
         exempt_kinds: 0,
-        oracle: OracleCfg { timesync: Some(TimeSyncCheck { lead: k, lead_milli: if lockstep { k as i64 * 1000 + phase as i64 * 1000 / per as i64 } else { ((s1 + phase) as i64 - s0 as i64) * 1000 / per as i64 }, latency_us: ms(lat_ms), measure_from_us: measure_from }), no_disconnect_events: true, ..Default::default() },
+        oracle: OracleCfg { timesync: Some(TimeSyncCheck { lead: k, lead_milli: if lockstep { k as i64 * 1000 + phase as i64 * 1000 / per as i64 } else { ((s1 + phase) as i64 - s0 as i64) * 1000 / per as i64 }, latency_us: ms(lat_ms), measure_from_us: measure_from, lead_from_counters: third_dies }), no_disconnect_events: !third_dies, ..Default::default() },
     }
 }
